@@ -247,3 +247,49 @@ def run(ctx):
                 if r is None: break
                 g, m = r; hist = hist + [op]
             observers(ctx, g, m, U, hist)
+
+
+def dump_traces(path, n, seed=0):
+    """concrete executions of the real class (pre-state, operation, post-state, result) for the contract/implementation cross-check of engine P
+    (pyvc/trace_check.py): the sidecar contracts must be TRUE of what the code does"""
+    import json, random
+    rng = random.Random(seed); GL = GLcls(); out = []
+    U = ['a', 'b', 1, 0.0, '', 'c', 2.5]
+    inits = [('list', ['a', 'b', 1]), ('list', [0.0, 'a', '']), ('dict', {'a': ['a', 'b'], 1: [1, 0.0]}), ('dict', {'': ['a'], 'b': ['b', 0.0]}), ('list', ['b', '', 0.0, 1, 'c'])]
+    def snap(g): return dict(list=list(g), content=[[k, list(v)] for k, v in g.content.items()])
+    def lit(x):
+        import numbers
+        if isinstance(x, numbers.Number) and not isinstance(x, bool): return float(x)
+        return str(x)
+    def norm(o):
+        if isinstance(o, dict): return {k: norm(v) for k, v in o.items()}
+        if isinstance(o, (list, tuple)): return [norm(v) for v in o]
+        return lit(o)
+    while len(out) < n:
+        init = rng.choice(inits); g, m = build(init)
+        out.append(dict(op='__init__@' + init[0], args=[norm(init[1]) if init[0] == 'list' else [[lit(k), norm(v)] for k, v in init[1].items()]], pre=None, post=norm(snap(g)), result=None))
+        for _ in range(rng.randint(2, 8)):
+            ops = valid_ops(m, U[:5], wide=True)
+            if not ops: break
+            op = rng.choice(ops); pre = snap(g)
+            try: r = apply_real(g, op)
+            except Exception: break
+            rm = apply_model(m, op)
+            args = list(op[1:])
+            if op[0] == 'update': args = [[[lit(k), norm(v)] for k, v in op[1].items()]]
+            rec = dict(op=op[0], args=norm(args) if op[0] != 'update' else args, pre=norm(pre), post=norm(snap(g)), result=norm(snap(r)) if r is not None else None)
+            out.append(rec)
+            if rm is not None: g, m = r, rm
+            # observers on the current object
+            v = rng.choice(U)
+            out.append(dict(op='get', args=[lit(v)], pre=norm(snap(g)), post=norm(snap(g)), result=norm(list(g.get(v)))))
+            out.append(dict(op='get_group', args=[lit(v)], pre=norm(snap(g)), post=norm(snap(g)), result=lit(g.get_group(v))))
+            out.append(dict(op='contains', args=[lit(v)], pre=norm(snap(g)), post=norm(snap(g)), result=bool(g.contains(v))))
+            out.append(dict(op='values', args=[], pre=norm(snap(g)), post=norm(snap(g)), result=norm(g.values())))
+    json.dump(out[:n], open(path, 'w'))
+    return len(out[:n])
+
+
+if __name__ == '__main__':
+    import sys
+    print(dump_traces(sys.argv[1], int(sys.argv[2]), int(sys.argv[3]) if len(sys.argv) > 3 else 0))
